@@ -130,6 +130,21 @@ def generate(rng, tier):
     # of objects, uses on one library after another, uses that raise (c14_reconf.py).  Appended last.
     from props import c14_reconf
     cases += c14_reconf.cases(rng, tier, good, adm_name, name_forms)
+    # the BOUNDARY of the known class K3: names with a word `and` on which the unchanged library DOES round-trip, because in the
+    # last-name-first text of the whole field that word has no name before it or no word after it (it ends the field, it carries
+    # the section comma, it is the only word): `And One` -> `One, And`; `Beta, Jr, and`; `Cc, and` ...  A change that "protects"
+    # such names, or that handles the word `and` differently anywhere, shows here and is NOT attributed to K3 (nc.in_k3 asks the
+    # reference splitter).  List and stack level; appended last.
+    edge = ["And One", "and Beta", "AND Y X", "Beta, Jr, and", "One, AND", "Cc, and", "Aa bb Cc, Dd And", "Aa Bb, aNd", "And", "and, Bb",
+            "{And} One", "One, {and}", "Aa~And, Bb", "von And, And", "Bb Cc, Jr, Xx and"]
+    edge = [e for e in edge if adm_name(e)]
+    for e in edge:
+        heads = [[]] + [[rng.choice(good)] for _ in range(2)] + [[rng.choice(good), rng.choice(good)]]
+        for h in heads:
+            v = " and ".join(h + [e])
+            cases.append({"stream": "k3-boundary", "input": {"level": "list", "s": v}})
+            cases.append({"stream": "k3-boundary", "input": {"level": "stack", "fields": [[rng.choice(["author", "editor", "translator"]), v]]}})
+        cases.append({"stream": "k3-boundary", "input": {"level": "person", "s": e}})
     return cases
 
 
